@@ -116,6 +116,7 @@ class Runner:
         self.LiquidError = LiquidError
         self.sc = StepCounter().start()
         self._classes: dict[tuple, type] = {}
+        self.minimised: set[str] = set()
 
     def close(self) -> None:
         self.sc.stop()
@@ -175,13 +176,18 @@ def sources(case: dict[str, Any]) -> list[str]:
     return [case["root"], *case["partials"].values()]
 
 
-def nl(s: str) -> str:
-    return s.replace("\r\n", "\n").replace("\r", "\n")
+def no_eol(s: str) -> str:
+    return s.replace("\r", "").replace("\n", "")
+
+
+def eol_only(got: str, want: str) -> bool:
+    """The two texts differ, and only in CR / LF characters (want has a CR)."""
+    return got != want and "\r" in want and no_eol(got) == no_eol(want)
 
 
 def differs_key(prefix: str, got: str, want: str) -> str:
-    if got != want and nl(got) == nl(want):
-        return "output-limit:newline-translation" if prefix in ("output-limit", "transparency") else f"{prefix}:newline-translation"
+    if eol_only(got, want):
+        return "output-limit:newline-translation"
     return f"{prefix}:limited-output-differs"
 
 
@@ -243,7 +249,7 @@ def judge_huge(rn: Runner, f: Facts, mode: str) -> list[tuple[str, str, dict[str
     if mode == f.mode:
         f.P = max(m.peak_visible, f.Ub)
         root = m.bufs.get(id(m.root_buffer))
-        if root is None or root.written != f.Ub:
+        if r.out == ref.U and (root is None or root.written != f.Ub):
             out.append(("output-limit:write-hook-mismatch",
                         f"root buffer accepted {root.written if root else None} bytes through write(), output has {f.Ub}", ex))
         rn.ctx.count("write_hook_hits", sum(b.nwrites for b in m.buf_order))
@@ -266,13 +272,13 @@ def judge_out(rn: Runner, f: Facts, L: int, mode: str) -> list[tuple[str, str, d
             out.append((key, f"{o['buffer']} buffer accepted {o['written']} bytes with {o['carry']} bytes already "
                              f"in its parent chain under limit {L}", ex))
         if m.null_parent_over:
-            ctx.count("obs_capture_under_blank_block_past_limit", 1)
+            ctx.count("obs_buffer_chain_past_limit_renders", 1)
     if r.status == "ok":
         O = r.out or ""
         ob = len(O.encode("utf-8", "surrogatepass"))
         if ob > L:
             out.append(("output-limit:exceeded-without-error", f"returned {ob} bytes under limit {L}", ex))
-        elif f.Ub > L:
+        elif f.Ub > L and not eol_only(O, f.U):
             out.append(("output-limit:exceeded-without-error",
                         f"unrestricted output has {f.Ub} bytes, limit {L}, render returned {ob} bytes without error", ex))
         if O != f.U:
@@ -301,8 +307,11 @@ def loop_key(o: dict[str, Any]) -> str:
                 culprits.add(k)
     if culprits:
         return "loop-limit:" + "+".join(sorted(culprits)) + "-not-multiplied"
-    ded = [k for i, k in enumerate(chain) if i == 0 or chain[i - 1] != k]
-    return "loop-limit:exceeded-without-error@" + ">".join(ded)
+    real = [i for i, (k, c) in enumerate(zip(chain, counts))
+            if k in ("for", "tablerow", "render-for", "include-for") and c > 1]
+    between = chain[real[0]: real[-1] + 1] if real else chain
+    across = sorted({k.split("-")[0] for k in between if k in ("render", "include", "call", "block", "extends")})
+    return "loop-limit:exceeded-without-error@across:" + ("+".join(across) or "none")
 
 
 def judge_loop(rn: Runner, f: Facts, L: int, mode: str) -> list[tuple[str, str, dict[str, Any]]]:
@@ -405,6 +414,28 @@ def limit_values(kind: str, f: Facts, rng: random.Random) -> tuple[list[int], bo
     raise ValueError(kind)
 
 
+def refs(kind: str, f: Facts) -> dict[str, int]:
+    if kind == "out":
+        return {"bytes": f.Ub, "peak": f.P, "zero": 0}
+    if kind == "loop":
+        return {"nest": f.C, "product": f.M}
+    return {"peak": f.N}
+
+
+def nearest_ref(kind: str, f: Facts, L: int) -> list[Any]:
+    """The limit value expressed relative to a measured consumption (for minimisation)."""
+    name, val = min(refs(kind, f).items(), key=lambda kv: abs(L - kv[1]))
+    return [name, L - val]
+
+
+def key_class(key: str) -> str:
+    if key.startswith("loop-limit:") and key.endswith("-not-multiplied"):
+        return "loop-limit:*-not-multiplied"
+    if key.startswith("loop-limit:exceeded-without-error@"):
+        return "loop-limit:exceeded-without-error@*"
+    return key
+
+
 def check_case(rn: Runner, case: dict[str, Any], rng: random.Random, kinds: tuple[str, ...] = ("huge", "out", "loop", "ns"),
                record: bool = True, modes: tuple[str, ...] = ("sync",)) -> list[tuple[str, str, dict[str, Any]]] | None:
     """All C06 oracles on one program; None when the unrestricted render fails."""
@@ -443,7 +474,9 @@ def check_case(rn: Runner, case: dict[str, Any], rng: random.Random, kinds: tupl
             for mode in modes:
                 if mode == "async" and not (abs(L - {"out": f.Ub, "loop": f.C, "ns": f.N}[kind]) <= 1):
                     continue
-                found += JUDGES[kind](rn, f, L, mode)
+                for key, what, ex in JUDGES[kind](rn, f, L, mode):
+                    ex["ref"] = nearest_ref(kind, f, L)
+                    found.append((key, what, ex))
         if triple and record:
             ctx.count({"out": "triples_output", "loop": "triples_loop", "ns": "triples_namespace"}[kind])
     return found
@@ -457,44 +490,61 @@ def report(rn: Runner, prog: dict[str, Any] | None, case: dict[str, Any],
     ctx = rn.ctx
     seen_here: set[str] = set()
     for key, what, ex in found:
-        if key in seen_here:
+        cls = key_class(key)
+        if cls in seen_here:
             continue
-        seen_here.add(key)
+        seen_here.add(cls)
         wit = {"case": {"root": case["root"], "partials": case["partials"], "data": case.get("data") or {},
                         "marks": bool(case.get("marks"))}, **ex, "gen": gen_id}
-        if prog is not None and key not in ctx.violations:
+        if prog is not None and cls not in rn.minimised:
+            rn.minimised.add(cls)
             try:
-                small, w2, ex2 = minimise(rn, prog, key, ex)
-                if small is not None:
-                    wit = {"case": small, **ex2, "gen": gen_id, "minimised": True}
-                    what = w2
+                hit = minimise(rn, prog, cls, ex)
+                if hit is not None:
+                    c, key, what, ex2 = hit
+                    wit = {"case": c, **ex2, "gen": gen_id, "minimised": True}
             except Exception as e:  # noqa: BLE001
                 ctx.note(f"minimise failed for {key}: {type(e).__name__}: {e}")
         ctx.violation(key, what, wit)
 
 
-def minimise(rn: Runner, prog: dict[str, Any], key: str, ex: dict[str, Any]):
+def minimise(rn: Runner, prog: dict[str, Any], cls: str, ex: dict[str, Any]):
+    """Shrink the program while a violation of the same class is reported at the same
+    position relative to the (re-measured) consumption.  The key of the minimal witness
+    is the one reported."""
     kind = ex.get("limit_kind")
-    kinds = (kind,) if kind in JUDGES else ("huge",)
+    mode = ex.get("mode", "sync")
+    ref = ex.get("ref")
     last: dict[str, Any] = {}
 
     def failing(p: dict[str, Any]) -> bool:
         c = G.emit(p)
         c["marks"] = True
-        res = check_case(rn, c, random.Random(1), kinds, record=False)
-        if not res:
+        f = Facts(rn, c)
+        if not f.ok:
             return False
+        res = list(f.findings)
+        if kind in JUDGES:
+            if kind == "out":
+                judge_huge(rn, f, "sync")
+            L = refs(kind, f)[ref[0]] + ref[1]
+            if L < (0 if kind == "out" else 1):
+                return False
+            res += JUDGES[kind](rn, f, L, mode)
+            for _, _, e in res:
+                e["ref"] = ref
+        else:
+            res += judge_huge(rn, f, mode)
         for k, w, e in res:
-            if k == key:
-                last["hit"] = (c, w, e)
+            if key_class(k) == cls:
+                last["hit"] = ({"root": c["root"], "partials": c["partials"], "data": c["data"], "marks": True}, k, w, e)
                 return True
         return False
 
-    small = G.shrink(prog, failing, budget=140)
-    if "hit" not in last or not failing(small):
-        return None, "", {}
-    c, w, e = last["hit"]
-    return {"root": c["root"], "partials": c["partials"], "data": c["data"], "marks": True}, w, e
+    small = G.shrink(prog, failing, budget=90)
+    if not failing(small):
+        return None
+    return last["hit"]
 
 
 # --------------------------------------------------------------------------- shards
